@@ -3,34 +3,43 @@ package main
 // C12 on the production key stack (gcpkms.Manager + gcpkms.Signer over the in-process Cloud KMS service of
 // c10_kms_svc.go, gcsca over testing/storage): the command histories of stream c12 — bootstrap | rotate |
 // wipeout ca|keys|all with common names, serial overrides, timestamps, overwrite / keep_going — run at
-// library level exactly as the command components do, and after every command the direct oracle of stream
-// c12 (c12RunHistory: root and signing certificate profiles, serial succession, only the primary signs,
-// names not reused, no clobbering without overwrite, wipeout leaves nothing usable) is evaluated on the
-// implementation alone.  There is no KeyHistory model of the Cloud KMS manager (its bootstrap / wipeout
-// semantics — AlreadyExists + keep_going, version listing, DESTROY_SCHEDULED — differ from the nonprod
-// managers), so this stream contributes oracle findings and a histogram, no correspondence lines.
+// library level exactly as the command components do, each command in its own Cloud KMS environment (generation
+// delay of the versions it creates, a context that expires while waiting), interleaved with external events
+// (pending generations complete, an operator disables a version, destroy-scheduled versions are destroyed).
+// After every command the observation of stream c12 (primary names, served root, every recorded certificate field
+// by field, the names that can sign) plus the state of every key version goes to the Lean model of the Cloud KMS
+// manager (Model/KeyHistoryKms.lean, op=khist), and the direct oracle of stream c12 plus the Cloud-KMS clauses
+// below is evaluated on the implementation alone.
 //
-// Plus one scenario the nonprod managers cannot exhibit: a key version that is still PENDING_GENERATION
-// when `wipeout keys` runs (left by a rotation that crashed after CreateCryptoKeyVersion).
+// Plus one scenario no command history exhibits: a rotation that is killed right after CreateCryptoKeyVersion.
 
 import (
 	"context"
 	"fmt"
+	"io"
+	"math/big"
+	"runtime"
 	"sort"
+	"strconv"
 	"strings"
+	"sync"
 
 	"cloud.google.com/go/kms/apiv1/kmspb"
+	"github.com/google/gce-tcb-verifier/cmd/output"
 	"github.com/google/gce-tcb-verifier/keys"
 	"github.com/google/gce-tcb-verifier/keys/gcpkms"
-	"github.com/google/gce-tcb-verifier/rotate"
 	"github.com/google/gce-tcb-verifier/sign/gcsca"
 	teststorage "github.com/google/gce-tcb-verifier/testing/storage"
 )
 
 func init() {
-	register("c12kms", "the command histories of stream c12 on gcpkms.Manager + gcpkms.Signer (in-process Cloud KMS service) + gcsca "+
-		"over testing/storage, direct oracle of stream c12 after every command (no model lines: the KeyHistory model does not "+
-		"cover the Cloud KMS manager); plus the PENDING_GENERATION-version-during-wipeout scenario. ", runC12Kms)
+	register("c12kms", "key-management histories of at most 7 steps on gcpkms.Manager + gcpkms.Signer (in-process Cloud KMS service) + gcsca "+
+		"over testing/storage: the commands of stream c12, each with a Cloud KMS environment (generation delay 0..2 polls, context "+
+		"expiring during the wait), and external events (generation completes, version disabled, destroy-scheduled versions destroyed); "+
+		"one case per history prefix: every recorded certificate parsed with crypto/x509, every key version probed (Sign / PublicKey) "+
+		"and its state, compared with the Lean model of the Cloud KMS manager; direct oracle of stream c12 plus: a successful rotation "+
+		"retires the previous primary and gets a fresh version number, primaries are ENABLED versions, nothing can become usable after "+
+		"`wipeout keys`. Plus the rotation killed after CreateCryptoKeyVersion. Non-trivial: at least two steps, one succeeded command.", runC12Kms)
 }
 
 type c12Kms struct {
@@ -38,6 +47,12 @@ type c12Kms struct {
 	st   c12Mock
 	seed uint64
 	rng  *Rng
+	// what the last command found (for the histogram and the oracle)
+	signCountBefore int
+	pendingBefore   int
+	statesBefore    map[string][]string // cryptoKey name -> state letter of every version, before the command
+	rootClass       string
+	signClass       string
 }
 
 func newC12KmsStack(seed uint64) *c12Kms {
@@ -49,18 +64,90 @@ func (s *c12Kms) kmName() string { return "gcpkms" }
 func (s *c12Kms) cli() bool      { return false }
 func (s *c12Kms) close()         {}
 
-func (s *c12Kms) ctx(c c12Cmd, cl *k10Client) context.Context {
+func (s *c12Kms) ctxOn(base context.Context, c c12Cmd, cl *k10Client) context.Context {
 	mgr := cl.manager()
 	kc := &keys.Context{Signer: &gcpkms.Signer{Manager: mgr}, CA: c12Gcsca(s.st), Manager: mgr, Random: c12Rand(s.seed + 1)}
-	ctx := keys.NewContext(c12Ctx(c), kc)
+	ctx := output.NewContext(base, &output.Options{Quiet: true, Overwrite: c.ow, KeepGoing: c.kg, Out: io.Discard, Err: io.Discard})
+	ctx = keys.NewContext(ctx, kc)
 	ctx = gcpkms.NewBootstrapContext(ctx, &gcpkms.BootstrapContext{RootKeyID: k10RootID, SigningKeyID: k10SignID,
 		SigningKeyOperators: []string{"serviceAccount:signer@example.com"}})
 	return gcpkms.NewSigningKeyContext(ctx, &gcpkms.SigningKeyContext{SigningKeyID: k10SignID})
 }
 
+func (s *c12Kms) ctx(c c12Cmd, cl *k10Client) context.Context {
+	return s.ctxOn(context.Background(), c, cl)
+}
+
+// keyClass: what waitForKeyGen will find under a cryptoKey.
+func (s *c12Kms) keyClass(name string) string {
+	k := s.svc.key(name)
+	if k == nil {
+		return "absent"
+	}
+	pend := false
+	for _, v := range k.vers {
+		if v.state == ksEnabled {
+			return "has-enabled"
+		}
+		pend = pend || v.state == ksPending
+	}
+	if pend {
+		return "has-pending"
+	}
+	return "none-usable"
+}
+
 func (s *c12Kms) exec(c c12Cmd) (bool, string) {
+	s.signCountBefore = 0
+	if k := s.svc.key(k10Parent); k != nil {
+		s.signCountBefore = len(k.vers)
+	}
+	s.rootClass, s.signClass = s.keyClass(k10Ring+"/cryptoKeys/"+k10RootID), s.keyClass(k10Parent)
+	s.pendingBefore = len(s.pending())
+	s.statesBefore = map[string][]string{}
+	for _, k := range s.svc.keys {
+		for _, v := range k.vers {
+			s.statesBefore[k.name] = append(s.statesBefore[k.name], k10StateLetter(v))
+		}
+	}
+	if c.kind == 'x' {
+		s.applyExt(c)
+		return true, ""
+	}
 	// a fresh client, manager, signer and authority per command, as a new process would have
-	return c12RunIn(s.ctx(c, &k10Client{svc: s.svc, rng: s.rng}), c)
+	base, cancel := context.WithCancel(context.Background())
+	defer cancel()
+	cl := &k10Client{svc: s.svc, rng: s.rng, env: k10Env{gen: c.gen, deadline: c.dl}, cancel: cancel}
+	return c12RunIn(s.ctxOn(base, c, cl), c)
+}
+
+// pending lists the versions that are PENDING_GENERATION.
+func (s *c12Kms) pending() []string {
+	var out []string
+	for _, k := range s.svc.keys {
+		for _, v := range k.vers {
+			if v.state == ksPending {
+				out = append(out, v.name)
+			}
+		}
+	}
+	return out
+}
+
+// applyExt: what happens to Cloud KMS between commands.
+func (s *c12Kms) applyExt(c c12Cmd) {
+	for _, k := range s.svc.keys {
+		for i, v := range k.vers {
+			switch {
+			case c.ext == "settle" && v.state == ksPending:
+				v.state, v.pend = ksEnabled, 0
+			case c.ext == "expire" && v.state == ksScheduled:
+				v.state = ksDestroyed
+			case c.ext == "disable" && v.state == ksEnabled && k.name == k10Ring+"/cryptoKeys/"+c.extKey && i+1 == c.extIdx:
+				v.state = ksDisabled
+			}
+		}
+	}
 }
 
 func (s *c12Kms) observe(cand map[string]bool) *c12Obs {
@@ -81,16 +168,270 @@ func (s *c12Kms) observe(cand map[string]bool) *c12Obs {
 	return o
 }
 
+// encK is the Cloud KMS form of a command for the model (op=khist).
+func (c c12Cmd) encK() string {
+	fl := b2s(c.ow) + b2s(c.kg)
+	switch c.kind {
+	case 'b':
+		return fmt.Sprintf("b:%s:%s:%s:%s:%s:%d:%d:%s:%s%s", fl, c.rootCn, c.signCn, c.rootSerial, c.signSerial, c.now, c.gen, b2s(c.dl), b2s(c.wr), b2s(c.ws))
+	case 'r':
+		ser := "0"
+		if c.signSerial != nil {
+			ser = c.signSerial.String()
+		}
+		return fmt.Sprintf("r:%s:%s:%s:%d:%d:%s", fl, c.signCn, ser, c.now, c.gen, b2s(c.dl))
+	case 'x':
+		if c.ext == "disable" {
+			return fmt.Sprintf("x:disable:%s:%d", c.extKey, c.extIdx)
+		}
+		return "x:" + c.ext
+	}
+	return fmt.Sprintf("w:%s:%s%s", fl, b2s(c.wca), b2s(c.wkeys))
+}
+
+func c12EncHistK(h []c12Cmd) string {
+	parts := make([]string, len(h))
+	for i, c := range h {
+		parts[i] = c.encK()
+	}
+	return strings.Join(parts, ";")
+}
+
+func (s *c12Kms) opLine(h []c12Cmd) string {
+	return fmt.Sprintf("c12 op=khist ring=%s rk=%s sk=%s cmds=%s", k10Ring, k10RootID, k10SignID, c12EncHistK(h))
+}
+
+// versLine prints the state of every version of every cryptoKey, in creation order.
+func (s *c12Kms) versLine() string {
+	var keys []string
+	for _, k := range s.svc.keys {
+		var parts []string
+		for i, v := range k.vers {
+			parts = append(parts, fmt.Sprintf("%d%s", i+1, k10StateLetter(v)))
+		}
+		keys = append(keys, k.name[strings.LastIndex(k.name, "/")+1:]+":"+strings.Join(parts, ","))
+	}
+	return "vers=" + strings.Join(keys, ";")
+}
+
+// oracle: the Cloud KMS clauses of the property, on the implementation and the service state alone.
+func (s *c12Kms) oracle(c c12Cmd, ok bool, prev, cur *c12Obs, find func(sig, what string, k int), k int, counts map[string]int) {
+	switch c.kind {
+	case 'b':
+		counts["kms/bootstrap/root-key="+s.rootClass]++
+		counts["kms/bootstrap/signing-key="+s.signClass]++
+		counts[fmt.Sprintf("kms/env/bootstrap/gen=%d,deadline=%s", c.gen, b2s(c.dl))]++
+	case 'r':
+		counts[fmt.Sprintf("kms/env/rotate/gen=%d,deadline=%s", c.gen, b2s(c.dl))]++
+	case 'x':
+		counts["kms/ext/"+c.ext]++
+	}
+	state := func(name string) string {
+		if v := s.svc.ver(name); v != nil {
+			return k10StateLetter(v)
+		}
+		return "absent"
+	}
+	// a successful bootstrap / rotation records ENABLED versions as primaries
+	if ok && (c.kind == 'b' || c.kind == 'r') {
+		for _, n := range []string{cur.pr, cur.ps} {
+			if c.kind == 'r' && n == cur.pr {
+				continue
+			}
+			if state(n) != "E" {
+				find("c12/gcpkms/"+c.kindName()+"/primary-not-enabled", fmt.Sprintf("the command succeeded and records %q as a primary key version, whose state is %s", n, state(n)), k)
+			}
+		}
+	}
+	// bootstrap adopts, under each cryptoKey, the FIRST version that was ENABLED, else the LAST that was
+	// PENDING_GENERATION, else a version with a new number (the selection rule of getEnabledOrPendingKeyVersion)
+	if ok && c.kind == 'b' {
+		for _, kv := range [][2]string{{k10Ring + "/cryptoKeys/" + k10RootID, cur.pr}, {k10Parent, cur.ps}} {
+			before := s.statesBefore[kv[0]]
+			want := len(before) + 1
+			for i := len(before) - 1; i >= 0; i-- {
+				if strings.HasPrefix(before[i], "P") {
+					want = i + 1
+					break
+				}
+			}
+			for i, l := range before {
+				if l == "E" {
+					want = i + 1
+					break
+				}
+			}
+			if kv[1] != fmt.Sprintf("%s/cryptoKeyVersions/%d", kv[0], want) {
+				find("c12/gcpkms/bootstrap/adopted-version", fmt.Sprintf("bootstrap records %q as primary; the versions of the cryptoKey were %v before: "+
+					"expected version %d (first ENABLED, else last PENDING_GENERATION, else a new one)", kv[1], before, want), k)
+			}
+		}
+	}
+	if ok && c.kind == 'r' {
+		// the previous primary is retired: "only the current primary signing key can sign" against DestroyKeyVersion
+		if prev.ps != "" && prev.ps != cur.ps && state(prev.ps) != "S" && state(prev.ps) != "X" {
+			find("c12/gcpkms/rotate/previous-primary-not-retired", fmt.Sprintf("after a successful rotation the previous primary %q is %s, not DESTROY_SCHEDULED", prev.ps, state(prev.ps)), k)
+		}
+		// the new version's number exceeds every number handed out before under the cryptoKey
+		idx, err := strconv.Atoi(cur.ps[strings.LastIndex(cur.ps, "/")+1:])
+		if err != nil || !strings.HasPrefix(cur.ps, k10Parent+"/cryptoKeyVersions/") || idx <= s.signCountBefore {
+			find("c12/gcpkms/rotate/version-number-not-fresh", fmt.Sprintf("the rotation's new primary %q does not carry a version number above the %d handed out before", cur.ps, s.signCountBefore), k)
+		}
+	}
+	// a command whose context does not expire waits for every generation it starts or adopts: it leaves no version
+	// PENDING_GENERATION behind (that is what keeps `wipeout keys` total: see the next clause)
+	if (c.kind == 'b' || c.kind == 'r') && !c.dl && s.pendingBefore == 0 {
+		if late := s.pending(); len(late) > 0 {
+			find("c12/gcpkms/"+c.kindName()+"/pending-left-without-timeout", "the command ran without an expiring context and leaves a key version PENDING_GENERATION behind (not waited for): "+strings.Join(late, ","), k)
+		}
+	}
+	// a key wipeout leaves no version DISABLED either (an operator could enable it again)
+	if ok && c.kind == 'w' && c.wkeys {
+		for _, key := range s.svc.keys {
+			for _, v := range key.vers {
+				if v.state == ksDisabled {
+					find("c12/gcpkms/wipeout-total/disabled-version-survives", "a DISABLED key version is left as it is by a successful `wipeout keys`: "+v.name, k)
+				}
+			}
+		}
+	}
+	// nothing can become usable after a key wipeout: a version that is still PENDING_GENERATION will be generated
+	if ok && c.kind == 'w' && c.wkeys {
+		late := s.pending()
+		if len(late) > 0 {
+			find("c12/gcpkms/wipeout-total/pending-version-survives",
+				"a key version that is PENDING_GENERATION when `wipeout keys` runs is skipped by the wipeout (not destroyable yet) and becomes ENABLED afterwards: a key can sign after the key wipeout: "+strings.Join(late, ","), k)
+		}
+	}
+	// histogram: ENABLED versions that the authority does not record (leftovers of failed attempts, or versions
+	// whose entries a CA wipeout removed)
+	left := 0
+	for _, n := range cur.live {
+		if !c12Has(cur.names, n) {
+			left++
+		}
+	}
+	counts[fmt.Sprintf("kms/enabled-unrecorded-versions/%d", left)]++
+	for _, key := range s.svc.keys {
+		for _, v := range key.vers {
+			l := k10StateLetter(v)
+			if strings.HasPrefix(l, "P") {
+				l = "P"
+			}
+			counts["kms/version-state-after/"+l]++
+		}
+	}
+}
+
+// c12GenHistoryK: a history of stream c12 with Cloud KMS environments and external events.
+func c12GenHistoryK(r *Rng) []c12Cmd {
+	base := c12GenHistory(r)
+	var h []c12Cmd
+	slept := false
+	for i, c := range base {
+		switch c.kind {
+		case 'b':
+			if i > 0 && r.Intn(100) < 70 {
+				c.kg = true // Cloud KMS: the key ring and the cryptoKeys stay; a later bootstrap needs keep_going
+			}
+			fallthrough
+		case 'r':
+			switch k := r.Intn(100); {
+			case k < 12:
+				c.gen, c.dl = 1+r.Intn(2), true
+			case k < 15 && !slept && c.kind == 'r':
+				c.gen, slept = 1, true // one real 5 s wait per history at most
+			}
+		}
+		h = append(h, c)
+		if r.Intn(100) < 14 && len(h) < 7 {
+			x := c12Cmd{kind: 'x'}
+			switch k := r.Intn(10); {
+			case k < 5:
+				x.ext = "settle"
+			case k < 8:
+				x.ext, x.extKey, x.extIdx = "disable", []string{k10RootID, k10SignID, k10SignID}[r.Intn(3)], 1+r.Intn(3)
+			default:
+				x.ext = "expire"
+			}
+			h = append(h, x)
+		}
+	}
+	return h
+}
+
+func c12FixedK() [][]c12Cmd {
+	t0 := c12Base.Unix()
+	day := int64(86400)
+	b := func(ow, kg bool, rcn, scn string, rs, ss int64, now int64, gen int, dl bool) c12Cmd {
+		return c12Cmd{kind: 'b', ow: ow, kg: kg, rootCn: rcn, signCn: scn, rootSerial: big.NewInt(rs), signSerial: big.NewInt(ss), now: now, gen: gen, dl: dl}
+	}
+	r := func(ow, kg bool, cn string, ser int64, now int64, gen int, dl bool) c12Cmd {
+		c := c12Cmd{kind: 'r', ow: ow, kg: kg, signCn: cn, now: now, gen: gen, dl: dl}
+		if ser != 0 {
+			c.signSerial = big.NewInt(ser)
+		}
+		return c
+	}
+	w := func(ca, ks bool) c12Cmd { return c12Cmd{kind: 'w', wca: ca, wkeys: ks} }
+	x := func(ext, key string, idx int) c12Cmd { return c12Cmd{kind: 'x', ext: ext, extKey: key, extIdx: idx} }
+	return [][]c12Cmd{
+		// C12-K6 inside a history: a rotation times out, the pending version survives `wipeout keys` and is generated later
+		{b(false, false, "rootA", "signA", 1, 2, t0, 0, false), r(false, false, "signA", 0, t0+day, 1, true), w(false, true), x("settle", "", 0)},
+		// a pending leftover is adopted by the next bootstrap (last PENDING_GENERATION version, waited for)
+		{b(false, false, "rootA", "signA", 1, 2, t0, 0, false), r(false, false, "signA", 0, t0+day, 2, true), r(false, false, "signA", 0, t0+2*day, 1, true), w(true, true),
+			b(false, true, "rootB", "signB", 1, 2, t0+3*day, 0, false), x("settle", "", 0), r(false, false, "signB", 0, t0+4*day, 0, false)},
+		// an ENABLED leftover of a refused rotation (serial collides with the first signing certificate), then a CA
+		// wipeout and a bootstrap: the FIRST enabled version of each cryptoKey is adopted
+		{b(false, false, "rootA", "signA", 1, 2, t0, 0, false), r(false, false, "signA", 0, t0+day, 0, false), r(false, false, "signA", 2, t0+2*day, 0, false), w(true, false),
+			b(false, true, "rootB", "signB", 1, 2, t0+3*day, 0, false), r(false, false, "signB", 0, t0+4*day, 0, false)},
+		// the same leftover, bootstrap with keep_going over the populated store
+		{b(false, false, "rootA", "signA", 1, 2, t0, 0, false), r(false, false, "signA", 2, t0+day, 0, false), b(false, true, "rootA", "signA", 1, 2, t0+2*day, 0, false),
+			r(false, false, "signA", 0, t0+3*day, 0, false)},
+		// generation takes one poll (a real 5 s wait each): a bootstrap that creates both cryptoKeys; a rotation
+		{b(false, false, "rootA", "signA", 1, 2, t0, 1, false), r(false, false, "signA", 0, t0+day, 0, false)},
+		{b(false, false, "rootA", "signA", 1, 2, t0, 0, false), r(false, false, "signA", 0, t0+day, 1, false), r(false, false, "signA", 0, t0+2*day, 0, false)},
+		// disabled versions: a disabled primary is retired by the next rotation, a disabled root stops rotations,
+		// a wipeout destroys DISABLED versions, expiry
+		{b(false, false, "rootA", "signA", 1, 2, t0, 0, false), x("disable", k10SignID, 1), r(false, false, "signA", 0, t0+day, 0, false), x("disable", k10RootID, 1),
+			r(false, false, "signA", 0, t0+2*day, 0, false), w(false, true), x("expire", "", 0)},
+		// C12-K7: bootstrap; wipeout keys; bootstrap --keep_going
+		{b(false, false, "rootA", "signA", 1, 2, t0, 0, false), w(false, true), b(false, true, "rootA", "signA", 7, 8, t0+day, 0, false), r(false, false, "signA", 0, t0+2*day, 0, false)},
+		// a failed bootstrap whose two uploads behave differently (the root certificate is new, the signing certificate's
+		// object is recorded for version 1): what stays behind depends on the order of gcsca.Finalize's map
+		{b(false, false, "rootA", "signA", 1, 2, t0, 0, false), w(false, true), b(false, true, "rootA", "signA", 9, 2, t0+day, 0, false),
+			b(true, true, "rootA", "signA", 9, 3, t0+2*day, 0, false), r(false, false, "signA", 0, t0+3*day, 0, false)},
+		// bootstrap without keep_going over an existing key ring; a timeout during bootstrap, then the retry
+		{b(false, false, "rootA", "signA", 1, 2, t0, 1, true), b(false, false, "rootA", "signA", 1, 2, t0+day, 0, false), b(false, true, "rootA", "signA", 1, 2, t0+2*day, 0, false),
+			r(false, false, "signA", 0, t0+3*day, 0, false), w(true, true), r(false, false, "signA", 0, t0+4*day, 0, false)},
+	}
+}
+
 func runC12Kms(c *Ctx) {
 	seq := c12Sequential()
-	hists := c12Fixed()
-	for len(hists) < c.N(25, 300) {
-		hists = append(hists, c12GenHistory(c.Rng))
+	hists := append(c12Fixed(), c12FixedK()...)
+	for len(hists) < c.N(45, 400) {
+		hists = append(hists, c12GenHistoryK(c.Rng))
 	}
+	results := make([]c12Result, len(hists))
+	var wg sync.WaitGroup
+	sem := make(chan struct{}, runtime.NumCPU())
+	for i := range hists {
+		wg.Add(1)
+		sem <- struct{}{}
+		go func(i int) {
+			defer wg.Done()
+			defer func() { <-sem }()
+			results[i] = c12RunHistory(4, hists[i], uint64(i*7+4)+c.Seed*1000003, seq)
+		}(i)
+	}
+	wg.Wait()
 	var sigs []string
 	seen := map[string]bool{}
-	for i, h := range hists {
-		r := c12RunHistory(4, h, uint64(i*7+4)+c.Seed*1000003, seq)
+	for i, r := range results {
+		for k := range r.ops {
+			c.Case(r.ops[k], r.impls[k], r.nontriv[k])
+		}
 		for k, v := range r.counts {
 			c.Hist[k] += v
 		}
@@ -108,18 +449,18 @@ func runC12Kms(c *Ctx) {
 				sigs = append(sigs, f.sig)
 			}
 		}
-		c.Count(fmt.Sprintf("history-length/%d", len(h)))
+		c.Count(fmt.Sprintf("history-length/%d", len(hists[i])))
 		c.Count(fmt.Sprintf("commands-run/%d", len(r.ops)))
 	}
 	sort.Strings(sigs)
 	c.Extra["oracle_signatures_seen"] = sigs
 
-	// ---- a version that is PENDING_GENERATION during `wipeout keys` ----
+	// ---- a version that is PENDING_GENERATION during `wipeout keys`, left by a KILLED rotation ----
 	st := newC12KmsStack(c.Seed*31 + 5)
 	t0 := c12Base.Unix()
 	boot := c12Cmd{kind: 'b', rootCn: "rootA", signCn: "signA", rootSerial: c12Big(c.Rng), signSerial: c12Big(c.Rng), now: t0}
 	if ok, _ := st.exec(boot); !ok {
-		c.Find("c12/gcpkms/bootstrap-fails", "bootstrap of an empty Cloud KMS + store failed", "stack=gcpkms+gcsca(mock) cmds="+boot.enc())
+		c.Find("c12/gcpkms/bootstrap-fails", "bootstrap of an empty Cloud KMS + store failed", "stack=gcpkms+gcsca(mock) cmds="+boot.encK())
 		return
 	}
 	// a rotation that dies right after CreateCryptoKeyVersion returned (first KMS call of the run)
@@ -148,8 +489,7 @@ func runC12Kms(c *Ctx) {
 		if ok && len(o.live) > 0 {
 			c.Find("c12/gcpkms/wipeout-total/pending-version-survives",
 				"a key version that was PENDING_GENERATION when `wipeout keys` ran is skipped by the wipeout (not destroyable yet) and becomes ENABLED afterwards: a key can sign after the key wipeout: "+strings.Join(o.live, ","),
-				"stack=gcpkms+gcsca(mock) cmds="+boot.enc()+";"+rot.enc()+"[crash after CreateCryptoKeyVersion];"+wipe.enc()+";[generation completes]")
+				"stack=gcpkms+gcsca(mock) cmds="+boot.encK()+";"+rot.encK()+"[killed after CreateCryptoKeyVersion];"+wipe.encK()+";[generation completes]")
 		}
 	}
-	_ = rotate.Key
 }
